@@ -11,6 +11,14 @@ package libp2ptls
 // TLS record layer and AEAD are crypto/tls (a trusted dependency): the grid is smaller than for Noise, the
 // read policies are fixed sizes around the record sizes (crypto/tls sizes records dynamically: ~1.2 kB at
 // first, 16 kB after 128 kB).
+//
+// End of the stream / errors of the connection underneath ("any underlying connection": an io.Reader may return
+// n > 0 TOGETHER WITH err != nil): the last transfer of every session ends with the writer closing BEFORE the
+// reader has read what the last write sent (the close_notify alert travels behind the data); the connection
+// underneath hands the reader its last segment in the same Read call as io.EOF (client->server sessions) or
+// before it (server->client sessions). All bytes must have arrived when the reader sees the end.
+// TestVerifC02TLSReadFaults breaks the connection at enumerated wire positions (around every record boundary)
+// with the error arriving together with the segment that ends there, or after it (control).
 
 import (
 	"context"
@@ -70,11 +78,13 @@ func c02Transports(t *testing.T) (cli, srv *Transport, err error) {
 }
 
 // c02Setup: fresh connection, real handshake, one direction ("c2s": client writes, server reads).
-func c02Setup(cli, srv *Transport, dir string, short []int) func() (*memconn.Link, error) {
+func c02Setup(cli, srv *Transport, dir string, short []int, eofWithData bool) func() (*memconn.Link, error) {
 	return func() (*memconn.Link, error) {
 		ca, cb := memconn.Pair()
 		ca.SetReadChunks(short...)
 		cb.SetReadChunks(short...)
+		ca.SetEOFWithData(eofWithData)
+		cb.SetEOFWithData(eofWithData)
 		ca.SetReadDeadline(time.Now().Add(time.Hour))
 		cb.SetReadDeadline(time.Now().Add(time.Hour))
 		type out struct {
@@ -113,6 +123,11 @@ type c02Case struct {
 	Short  []int  `json:"short_reads_underneath"`
 	Each   bool   `json:"read_after_each_write"`
 	Nth    int    `json:"nth_transfer_of_session"`
+	// last transfer of a session: the writer closes before the reader reads what the last write sent
+	CloseEarly  bool               `json:"writer_closes_before_the_last_read,omitempty"`
+	EOFWithData bool               `json:"last_segment_arrives_together_with_eof"`
+	Scenario    string             `json:"scenario,omitempty"`
+	Fault       *memconn.ReadFault `json:"read_fault,omitempty"`
 }
 
 func c02ShortWrites(w []int) []int {
@@ -149,6 +164,7 @@ func TestVerifC02TLS(t *testing.T) {
 	r.Bounds["short_read_patterns(cyclic, 0=unlimited)"] = shorts
 	r.Bounds["directions"] = "client->server, server->client"
 	r.Bounds["read_after"] = "each write | last write"
+	r.Bounds["end_of_stream"] = "the last transfer of every session: the writer closes before the reader reads what the last write sent; the connection underneath delivers its last segment together with io.EOF (client->server) | before io.EOF (server->client)"
 	r.Bounds["read_sizes"] = fmt.Sprintf("%v, L+1, remaining-1, remaining, remaining+1", fixed)
 	// zero-length reads (len(buf) = 0) interleaved: z(i mod n) of them before the i-th non-empty Read
 	zeroPols := []memconn.Policy{memconn.Fixed(17).WithZeros(1), memconn.Rel(-1).WithZeros(2, 0), memconn.Fixed(16384).WithZeros(0, 1)}
@@ -192,10 +208,11 @@ func TestVerifC02TLS(t *testing.T) {
 								}
 								payloads[k] = memconn.Pattern(uint64(0x7150000+i*2+len(dir)), L)
 							}
-							items[i] = memconn.Item{Payload: payloads[k], Writes: sp.Sizes, Each: each, Pol: pol}
-							cases[i] = c02Case{Layer: "tls", Dir: dir, L: L, Split: sp.Name, Writes: c02ShortWrites(sp.Sizes), Policy: pol.Name, Short: short, Each: each, Nth: i}
+							last := i == len(pols)-1
+							items[i] = memconn.Item{Payload: payloads[k], Writes: sp.Sizes, Each: each, Pol: pol, CloseEarly: last}
+							cases[i] = c02Case{Layer: "tls", Dir: dir, L: L, Split: sp.Name, Writes: c02ShortWrites(sp.Sizes), Policy: pol.Name, Short: short, Each: each, Nth: i, CloseEarly: last, EOFWithData: dir == "c2s"}
 						}
-						res := memconn.RunFidelity(t, c02Setup(cli, srv, dir, short), items, &b.Buf, nil)
+						res := memconn.RunFidelity(t, c02Setup(cli, srv, dir, short, dir == "c2s"), items, &b.Buf, nil)
 						b.Fidelity("tls", res, len(items), func(i int) any { return cases[i] })
 						for i := 0; i < res.Done; i++ {
 							r.Outcome("tls transfer delivered intact")
@@ -217,6 +234,7 @@ type c02TCase struct {
 	EditStr  string       `json:"edit_text"`
 	Policy   string       `json:"read_policy"`
 	Short    []int        `json:"short_reads_underneath"`
+	EOFJoin  bool         `json:"end_of_stream_together_with_the_last_segment,omitempty"`
 	Outcome  string       `json:"outcome,omitempty"`
 }
 
@@ -254,19 +272,23 @@ func TestVerifC02TLSTamper(t *testing.T) {
 		pols   []memconn.Policy
 		shorts [][]int
 		dirs   []string
+		join   bool // the end of the (edited) stream arrives in the same Read call as its last segment
 	}
 	plans := []plan{
-		{"small-records", []int{1, 15, 16, 17, 40}, []memconn.Policy{memconn.Fixed(1), memconn.Fixed(70000)}, [][]int{{0}}, []string{"c2s"}},
-		{"small-records", []int{1, 15, 16, 17, 40}, []memconn.Policy{memconn.Fixed(70000)}, [][]int{{1}}, []string{"c2s"}},
-		{"small-records", []int{1, 15, 16, 17, 40}, []memconn.Policy{memconn.Fixed(70000)}, [][]int{{0}}, []string{"s2c"}},
-		{"large-records", []int{10, 140000, 30000, 5}, []memconn.Policy{memconn.Fixed(70000)}, [][]int{{0}}, []string{"c2s"}},
+		{"small-records", []int{1, 15, 16, 17, 40}, []memconn.Policy{memconn.Fixed(1), memconn.Fixed(70000)}, [][]int{{0}}, []string{"c2s"}, false},
+		{"small-records", []int{1, 15, 16, 17, 40}, []memconn.Policy{memconn.Fixed(70000)}, [][]int{{1}}, []string{"c2s"}, false},
+		{"small-records", []int{1, 15, 16, 17, 40}, []memconn.Policy{memconn.Fixed(70000)}, [][]int{{0}}, []string{"s2c"}, false},
+		{"large-records", []int{10, 140000, 30000, 5}, []memconn.Policy{memconn.Fixed(70000)}, [][]int{{0}}, []string{"c2s"}, false},
 		// zero-length reads interleaved with the reads that meet the edited record
-		{"small-records", []int{1, 15, 16, 17, 40}, []memconn.Policy{memconn.Fixed(16).WithZeros(1)}, [][]int{{0}}, []string{"c2s"}},
+		{"small-records", []int{1, 15, 16, 17, 40}, []memconn.Policy{memconn.Fixed(16).WithZeros(1)}, [][]int{{0}}, []string{"c2s"}, false},
+		// the end of the edited stream (after a cut: inside a record) arrives together with its last segment
+		{"small-records", []int{1, 15, 16, 17, 40}, []memconn.Policy{memconn.Fixed(16)}, [][]int{{0}}, []string{"c2s"}, true},
 	}
 	if thorough {
 		plans = []plan{
-			{"small-records", []int{1, 15, 16, 17, 40}, []memconn.Policy{memconn.Fixed(1), memconn.Fixed(16), memconn.Fixed(70000), memconn.Fixed(16).WithZeros(1), memconn.Fixed(70000).WithZeros(0, 1)}, [][]int{{0}, {1}, {7}}, []string{"c2s", "s2c"}},
-			{"large-records", []int{10, 140000, 30000, 5}, []memconn.Policy{memconn.Fixed(4096), memconn.Fixed(70000)}, [][]int{{0}, {7}}, []string{"c2s", "s2c"}},
+			{"small-records", []int{1, 15, 16, 17, 40}, []memconn.Policy{memconn.Fixed(1), memconn.Fixed(16), memconn.Fixed(70000), memconn.Fixed(16).WithZeros(1), memconn.Fixed(70000).WithZeros(0, 1)}, [][]int{{0}, {1}, {7}}, []string{"c2s", "s2c"}, false},
+			{"large-records", []int{10, 140000, 30000, 5}, []memconn.Policy{memconn.Fixed(4096), memconn.Fixed(70000)}, [][]int{{0}, {7}}, []string{"c2s", "s2c"}, false},
+			{"small-records", []int{1, 15, 16, 17, 40}, []memconn.Policy{memconn.Fixed(1), memconn.Fixed(16), memconn.Fixed(70000)}, [][]int{{0}, {7}}, []string{"c2s"}, true},
 		}
 	}
 	var desc []string
@@ -275,7 +297,7 @@ func TestVerifC02TLSTamper(t *testing.T) {
 		for _, q := range p.pols {
 			pn = append(pn, q.Name)
 		}
-		desc = append(desc, fmt.Sprintf("%s writes=%v policies=%v short_reads=%v dirs=%v", p.name, p.writes, pn, p.shorts, p.dirs))
+		desc = append(desc, fmt.Sprintf("%s writes=%v policies=%v short_reads=%v dirs=%v end_of_stream_together_with_the_last_segment=%v", p.name, p.writes, pn, p.shorts, p.dirs, p.join))
 	}
 	r.Bounds["plans"] = desc
 	r.Bounds["edits"] = "per TLS record (5-byte header + ciphertext): XOR 0x01 and 0x80 at every byte (records <= 64 bytes) or at the first and last 48 bytes (larger; thorough: also every 4099th byte); drop; duplicate; swap with next; truncate to k bytes with the rest following and cut the stream after k bytes"
@@ -287,7 +309,7 @@ func TestVerifC02TLSTamper(t *testing.T) {
 			L += w
 		}
 		payload := memconn.Pattern(0x7157A3, L)
-		probe := memconn.RunTamper(t, c02Setup(cli, srv, p.dirs[0], []int{0}), payload, p.writes, memconn.Fixed(70000), c02Cut, memconn.Edit{Kind: "none"}, true, &b.Buf)
+		probe := memconn.RunTamper(t, c02Setup(cli, srv, p.dirs[0], []int{0}, false), payload, p.writes, memconn.Fixed(70000), c02Cut, memconn.Edit{Kind: "none"}, true, &b.Buf)
 		if probe.Frames == nil {
 			r.Cap("infrastructure: probe run of %s captured nothing (%s %s)", p.name, probe.Infra, probe.Panic)
 			continue
@@ -307,7 +329,7 @@ func TestVerifC02TLSTamper(t *testing.T) {
 				if !thorough && len(probe.Frames) > 40 && e.Frame >= 3 && e.Frame < len(probe.Frames)-3 {
 					continue
 				}
-				if !b.Mine(p.name, dir, ei) {
+				if !b.Mine(p.name, dir, ei, p.join) {
 					continue
 				}
 				for _, pol := range p.pols {
@@ -315,11 +337,106 @@ func TestVerifC02TLSTamper(t *testing.T) {
 						if b.Over() {
 							return
 						}
-						c := c02TCase{Layer: "tls", Dir: dir, Scenario: p.name, Writes: p.writes, Edit: e, EditStr: e.String(), Policy: pol.Name, Short: short}
-						res := memconn.RunTamper(t, c02Setup(cli, srv, dir, short), payload, p.writes, pol, c02Cut, e, false, &b.Buf)
+						c := c02TCase{Layer: "tls", Dir: dir, Scenario: p.name, Writes: p.writes, Edit: e, EditStr: e.String(), Policy: pol.Name, Short: short, EOFJoin: p.join}
+						res := memconn.RunTamper(t, c02Setup(cli, srv, dir, short, p.join), payload, p.writes, pol, c02Cut, e, false, &b.Buf)
 						if cls := b.Tamper("tls", res, e, L, c); cls != "" && res.Changed {
 							c.Outcome = cls
-							b.Distinct(c, p.name, dir, e, res.Truncation)
+							b.Distinct(c, p.name, dir, e, res.Truncation, p.join)
+						}
+					}
+				}
+			}
+		}
+	}
+}
+
+// TestVerifC02TLSReadFaults: one fresh session per run; the writer writes everything (W wire bytes in flight, cut
+// into records by a probe run), then the stream ends (the writer closes: close_notify + end of the connection,
+// delivered with / after the last segment) or the connection breaks after Pos of the W bytes (reset / expired
+// deadline together with the segment that ends at Pos, or - reset - after it). Pos: 1, 2, 3, W/2, W-2, W-1, W and
+// c-1 .. c+5 around every record boundary c (inside the next 5-byte header, on its first ciphertext byte). The
+// reader reads on for 6 Reads after its first error. Oracle: memconn.FaultResult.Judge.
+func TestVerifC02TLSReadFaults(t *testing.T) {
+	r := vrep.New("C02", "tls-readfaults")
+	defer r.Flush()
+	cli, srv, err := c02Transports(t)
+	if err != nil {
+		r.Cap("infrastructure: cannot create transports: %v", err)
+		return
+	}
+	b := memconn.NewBook(r)
+	defer b.Finish()
+	thorough := vrep.Thorough()
+	type plan struct {
+		name   string
+		writes []int
+		pols   []memconn.Policy
+		shorts [][]int
+		dirs   []string
+	}
+	plans := []plan{
+		{"small-records", []int{1, 15, 16, 17, 40}, []memconn.Policy{memconn.Fixed(1), memconn.Fixed(16), memconn.Rel(0), memconn.Fixed(70000), memconn.Fixed(16).WithZeros(1)}, [][]int{{0}, {1}, {7}}, []string{"c2s"}},
+		{"large-records", []int{10, 20000, 5}, []memconn.Policy{memconn.Fixed(4096), memconn.Fixed(70000)}, [][]int{{0}, {7}}, []string{"c2s"}},
+	}
+	if thorough {
+		plans = []plan{
+			{"small-records", []int{1, 15, 16, 17, 40}, []memconn.Policy{memconn.Fixed(1), memconn.Fixed(2), memconn.Fixed(16), memconn.Rel(-1), memconn.Rel(0), memconn.Rel(1), memconn.Fixed(70000), memconn.Fixed(16).WithZeros(1), memconn.Fixed(70000).WithZeros(0, 1)}, [][]int{{0}, {1}, {2}, {5}, {7}}, []string{"c2s", "s2c"}},
+			{"large-records", []int{10, 20000, 5}, []memconn.Policy{memconn.Fixed(1), memconn.Fixed(4096), memconn.Fixed(16384), memconn.Fixed(70000)}, [][]int{{0}, {1}, {7}, {4096}}, []string{"c2s", "s2c"}},
+		}
+	}
+	var desc []string
+	for _, p := range plans {
+		var pn []string
+		for _, q := range p.pols {
+			pn = append(pn, q.Name)
+		}
+		desc = append(desc, fmt.Sprintf("%s writes=%v policies=%v short_reads=%v dirs=%v", p.name, p.writes, pn, p.shorts, p.dirs))
+	}
+	r.Bounds["plans"] = desc
+	r.Bounds["faults"] = "eof {with | after the last segment}; at every position: reset with the segment, reset after the segment (control), expired deadline with the segment"
+	r.Bounds["fault_positions(wire bytes delivered before the break, of W in flight)"] = "1, 2, 3, W/2, W-2, W-1, W; c-1 .. c+5 for every record boundary c"
+	r.Bounds["reads_after_first_error"] = 6
+	for _, p := range plans {
+		L := 0
+		for _, w := range p.writes {
+			L += w
+		}
+		payload := memconn.Pattern(0x715FA17, L)
+		for _, dir := range p.dirs {
+			probe := memconn.RunReadFault(t, c02Setup(cli, srv, dir, []int{0}, false), payload, p.writes, p.pols[0], memconn.ReadFault{}, true, &b.Buf)
+			recs, rest := memconn.SplitFrames(memconn.FrameTLS, probe.Wire)
+			if probe.W == 0 || len(rest) != 0 {
+				r.Cap("infrastructure: probe run of %s/%s: %d wire bytes, %d trailing (%s %s)", p.name, dir, probe.W, len(rest), probe.Infra, probe.Panic)
+				continue
+			}
+			var marks, sizes []int
+			c := 0
+			for _, rec := range recs {
+				c += len(rec)
+				sizes = append(sizes, len(rec))
+				for d := -1; d <= 5; d++ {
+					marks = append(marks, c+d)
+				}
+			}
+			r.Bounds["record_sizes_in_flight_"+p.name+"_"+dir] = sizes
+			faults := memconn.Faults(probe.W, marks)
+			for fi, f := range faults {
+				if !b.Mine(p.name, dir, fi) {
+					continue
+				}
+				for _, pol := range p.pols {
+					for _, short := range p.shorts {
+						if b.Over() {
+							return
+						}
+						f := f
+						c := c02Case{Layer: "tls", Dir: dir, L: L, Scenario: p.name, Writes: p.writes, Policy: pol.Name, Short: short, EOFWithData: f.Kind == "eof" && f.WithData, Fault: &f}
+						res := memconn.RunReadFault(t, c02Setup(cli, srv, dir, short, false), payload, p.writes, pol, f, false, &b.Buf)
+						if res.Panic == "" && res.Infra == "" && res.W != probe.W {
+							r.Cap("infrastructure: %d wire bytes in flight, the probe run had %d", res.W, probe.W)
+						}
+						if cls := b.ReadFault("tls", res, f, L, c); cls != "" {
+							b.Distinct(c, p.name, dir, fi, pol.Name, short)
 						}
 					}
 				}
